@@ -1,6 +1,7 @@
 SPECIFICATION Spec
 CONSTANTS
   HistBand = TRUE
+  StrictReassign = FALSE
   MaxSteps = 3
   Rich = FALSE
   Acts = {"assign", "remove_lanelet", "remove_obstacle", "replace"}
